@@ -1,6 +1,8 @@
 package rules
 
 import (
+	"golang.org/x/tools/go/cfg"
+
 	"go/ast"
 	"go/token"
 	"go/types"
@@ -347,6 +349,30 @@ func c01HeaderValue(c *core.Ctx) {
 			return true
 		})
 	}
+	// the value handed straight to a same-package helper: h.match(r.HTTPHeader().Get(h.Key))
+	vfH := newMuxFlow(fns)
+	for fo, sites := range vfH.sites {
+		fd, ok := vfH.fnOf[fo].Node.(*ast.FuncDecl)
+		if !ok {
+			continue
+		}
+		var params []*ast.Ident
+		for _, fld := range fd.Type.Params.List {
+			if len(fld.Names) == 0 {
+				params = append(params, nil)
+			}
+			params = append(params, fld.Names...)
+		}
+		for _, site := range sites {
+			for i, a := range site.Call.Args {
+				if call, ok := ast.Unparen(a).(*ast.CallExpr); ok && i < len(params) && params[i] != nil {
+					if full := calleeFull(site.Fn, call); full == "(net/http.Header).Get" || full == "(net/http.Header).Values" {
+						vals[f.Info.Defs[params[i]]] = true
+					}
+				}
+			}
+		}
+	}
 	if !c.RequireCount("R-C01-9", "header value variables in matchHeaders", len(vals), 1) {
 		return
 	}
@@ -467,4 +493,220 @@ func c01LookupFirst(c *core.Ctx) {
 	}
 	c.Check(bad == nil && len(s.res.At[s.fetch]) > 0, "R-C01-5", s.cons+"|backend resolved before the body is read", pos(c, s.fetch),
 		"FetchPayload is reached only with a found backend", "the request body is fetched (413 / 400 possible) before the backend lookup has succeeded: a route whose backend does not exist answers 413/400 instead of 503 for some bodies", witness(bad)...)
+}
+
+// R-C01-11: the two header modes combine the per-header predicates differently.
+func c01HeaderModes(c *core.Ctx) {
+	c.Rule("R-C01-11", "header modes: with matchAllHeader every header must hold — its value is in the value list (when one is configured) AND matches the expression (when one is configured) — and a failed predicate ends the matcher with false; without it one header whose value is in the list OR matches the expression ends the matcher with true; after all headers the result is matchAllHeader")
+	ro := muxRolesOf(c, "R-C01-11")
+	if ro == nil {
+		return
+	}
+	f := muxMatcherFn(c, ro, ro.pathT, "matchHeaders", "HTTPHeader", "Header")
+	if f == nil {
+		return
+	}
+	cons := muxFuncConstruct(f)
+	info := f.Info
+	headerT := muxNamedTypeOpt(f.Pkg.Types, "Header")
+	pathSpecT := muxNamedTypeOpt(f.Pkg.Types, "Path")
+	if headerT == nil || pathSpecT == nil {
+		c.Errorf("R-C01-11: anchor: the spec types Header / Path are not found")
+		return
+	}
+	valuesF := muxOneField(headerT, "Values", func(v *types.Var) bool { return v.Name() == "Values" })
+	regexpF := muxOneField(headerT, "Regexp", func(v *types.Var) bool { return v.Name() == "Regexp" })
+	reF := muxOneField(headerT, "headerRE", func(v *types.Var) bool { return strings.HasSuffix(v.Type().String(), "regexp.Regexp") })
+	allF := muxFieldInitFrom(c, ro.pathT, muxOneField(pathSpecT, "MatchAllHeader", func(v *types.Var) bool { return v.Name() == "MatchAllHeader" }))
+	if valuesF == nil || regexpF == nil || reF == nil || allF == nil {
+		c.Errorf("R-C01-11: anchor: cannot resolve Header.Values / Header.Regexp / the compiled expression / the MuxPath flag initialised from Path.MatchAllHeader")
+		return
+	}
+	fns := reach(f, 2)
+	vf := newMuxFlow(fns)
+	selects := func(e ast.Expr, fld *types.Var) bool {
+		sel, ok := vf.through(e).(*ast.SelectorExpr)
+		if !ok {
+			return false
+		}
+		sl := info.Selections[sel]
+		return sl != nil && sl.Obj() == fld
+	}
+	var inV, inRE []string           // keys of "the value is in the list" / "the value matches the expression"
+	var emptyV, emptyRE []muxHdrAtom // "no list configured" / "no expression configured"
+	for _, g := range fns {
+		for _, call := range calls(g.Body, true) {
+			full := calleeFull(g, call)
+			switch {
+			case strings.HasSuffix(full, "pkg/util/stringtool.StrInSlice") && len(call.Args) == 2 && selects(call.Args[1], valuesF):
+				inV = append(inV, f.CallKey(call))
+			case strings.HasSuffix(full, "regexp.Regexp).MatchString"):
+				if sel, ok := ast.Unparen(call.Fun).(*ast.SelectorExpr); ok && selects(sel.X, reF) {
+					inRE = append(inRE, f.CallKey(call))
+				}
+			}
+		}
+		ast.Inspect(g.Body, func(n ast.Node) bool {
+			be, ok := n.(*ast.BinaryExpr)
+			if !ok {
+				return true
+			}
+			for i, side := range []ast.Expr{be.X, be.Y} {
+				other := be.Y
+				if i == 1 {
+					other = be.X
+				}
+				tv, ok := info.Types[other]
+				if !ok || tv.Value == nil {
+					continue
+				}
+				switch tv.Value.ExactString() {
+				case "0":
+					if x := vf.lenOf(side); x != nil && selects(x, valuesF) {
+						r := f.Render(ast.Unparen(side))
+						emptyV = append(emptyV, muxHdrAtom{"eq:" + r + "==0", flow.True}, muxHdrAtom{"lt:0<" + r, flow.False})
+					}
+				case `""`:
+					if selects(side, regexpF) {
+						emptyRE = append(emptyRE, muxHdrAtom{"eq:" + f.Render(ast.Unparen(side)) + `==""`, flow.True})
+					}
+				}
+			}
+			return true
+		})
+	}
+	if !c.RequireCount("R-C01-11", "value-list tests in matchHeaders", len(inV), 1) || !c.RequireCount("R-C01-11", "expression tests in matchHeaders", len(inRE), 1) {
+		return
+	}
+	loops := vf.loopsOver(ro.headersF, "hdr")
+	if !c.RequireCount("R-C01-11", "loops over the entry's headers", len(loops), 1) {
+		return
+	}
+	known := func(st *flow.State, keys []string) flow.Val {
+		for _, k := range keys {
+			if v := st.Get(k); v != flow.Unknown {
+				return v
+			}
+		}
+		return flow.Unknown
+	}
+	holds := func(st *flow.State, atoms []muxHdrAtom) bool {
+		for _, a := range atoms {
+			if st.Is(a.key, a.empty) {
+				return true
+			}
+		}
+		return false
+	}
+	mode := func(st *flow.State) flow.Val {
+		for _, fact := range st.Facts() {
+			if strings.HasPrefix(fact, "v:") && strings.HasSuffix(fact[:len(fact)-2], "."+allF.Name()) {
+				if strings.HasSuffix(fact, "=T") {
+					return flow.True
+				}
+				return flow.False
+			}
+		}
+		return flow.Unknown
+	}
+	var bad *flow.State
+	why := ""
+	iters := map[flow.Val]int{}
+	inBody := func(st *flow.State) bool {
+		for _, l := range loops {
+			if l.current(st) {
+				return true
+			}
+		}
+		return false
+	}
+	res := muxAnalyzeInl(c, f, flow.Config{NoHavoc: true,
+		OnBlock: func(st *flow.State, b *cfg.Block) {
+			for _, l := range loops {
+				if l.isHead(b) && st.Is("ev:iter:"+l.name+sprintf("%d", l.stmt.Pos()), flow.True) {
+					// an iteration has ended without deciding: the header was passed over
+					m := mode(st)
+					iters[m]++
+					v, re := known(st, inV), known(st, inRE)
+					switch m {
+					case flow.True:
+						switch {
+						case v != flow.True && !holds(st, emptyV):
+							bad, why = st, "in match-all mode a header is accepted without its value having been found in the header's value list (and the list is not known to be empty): a header that configures both a value list and an expression must satisfy both"
+						case re != flow.True && !holds(st, emptyRE):
+							bad, why = st, "in match-all mode a header is accepted without its value having matched the header's expression (and no expression is not established): a header that configures both a value list and an expression must satisfy both"
+						}
+					case flow.False:
+						if v == flow.True || re == flow.True {
+							bad, why = st, "in match-any mode the search goes on although a header's value is in its list / matches its expression"
+						}
+					}
+				}
+				if l.isBody(b) {
+					st.Set("ev:iter:"+l.name+sprintf("%d", l.stmt.Pos()), flow.True)
+				}
+				if l.isDone(b) {
+					st.Set("ev:iter:"+l.name+sprintf("%d", l.stmt.Pos()), flow.Unknown)
+				}
+				l.track(st, b)
+			}
+		},
+	})
+	if res == nil {
+		return
+	}
+	nexits := 0
+	for _, ex := range res.Exits {
+		if ex.Kind != flow.ExitReturn || bad != nil {
+			continue
+		}
+		st := ex.State
+		r := muxRetExpr(f, vf, ex)
+		if r == nil {
+			continue
+		}
+		m := mode(st)
+		val := flow.Unknown
+		switch {
+		case info.Types[r].Value != nil:
+			val = flow.False
+			if info.Types[r].Value.ExactString() == "true" {
+				val = flow.True
+			}
+		case selects(r, allF):
+			val = m
+		case muxIdentOf(r) != nil:
+			val = st.Get(f.VarKey(r))
+		}
+		if val == flow.Unknown || m == flow.Unknown {
+			if len(info.Types[r].Type.String()) > 0 && m != flow.Unknown {
+				c.Undecide("R-C01-11", cons+"|header modes", pos(c, ex.Ret()), "cannot resolve the value the header matcher returns on this path")
+				return
+			}
+			continue
+		}
+		nexits++
+		v, re := known(st, inV), known(st, inRE)
+		switch {
+		case inBody(st) && m == flow.True:
+			if val == flow.True {
+				bad, why = st, "in match-all mode the matcher answers true before all headers were examined"
+			} else if v != flow.False && re != flow.False {
+				bad, why = st, "in match-all mode the matcher answers false although no predicate of the current header failed"
+			}
+		case inBody(st) && m == flow.False:
+			if val == flow.False {
+				bad, why = st, "in match-any mode the matcher answers false before all headers were examined"
+			} else if v != flow.True && re != flow.True {
+				bad, why = st, "in match-any mode the matcher answers true although neither predicate of the current header held"
+			}
+		case !inBody(st) && (val == flow.True) != (m == flow.True):
+			bad, why = st, "after all headers were examined the matcher does not answer matchAllHeader (true in match-all mode: nothing failed; false in match-any mode: nothing matched)"
+		}
+	}
+	if bad == nil && (iters[flow.True] == 0 || iters[flow.False] == 0 || nexits == 0) {
+		c.Errorf("R-C01-11: vacuity guard: the header matcher is not examined in both modes (iterations passed over: match-all %d, match-any %d; exits %d)", iters[flow.True], iters[flow.False], nexits)
+		return
+	}
+	c.Check(bad == nil, "R-C01-11", cons+"|header modes", pos(c, f.Body), sprintf("match-all: %d passed-over iterations each with list and expression satisfied or absent; match-any: %d passed-over iterations with neither satisfied; %d exits consistent", iters[flow.True], iters[flow.False], nexits), why, witness(bad)...)
 }
